@@ -7,16 +7,13 @@
 (* (edge - 1 ns, edge, edge + 1 ns), generators in flight across every edge,    *)
 (* a backlog in front of Q, units held across activations, and an observation   *)
 (* after the last window.                                                       *)
-EXTENDS Faults
+EXTENDS Faults, SequencesExt
 
 CONSTANTS Configs      \* set of [mode, maxw, tmax, cms, devs]: window space "mode", up to maxw windows on the
                        \* coarse grid 1..tmax, cancel modes cms, one run per deviation set in devs
 
-RECURSIVE SortSet(_)
-SortSet(S) == IF S = {} THEN <<>>
-              ELSE LET x == CHOOSE x \in S : \A y \in S : x <= y IN <<x>> \o SortSet(S \ {x})
-RECURSIVE SeqOfSet(_)
-SeqOfSet(S) == IF S = {} THEN <<>> ELSE LET x == CHOOSE x \in S : TRUE IN <<x>> \o SeqOfSet(S \ {x})
+SortSet(S) == SetToSortSeq(S, LAMBDA a, b : a < b)
+SeqOfSet(S) == SetToSeq(S)
 RECURSIVE Concat(_, _)
 Concat(ss, i) == IF i > Len(ss) THEN <<>> ELSE ss[i] \o Concat(ss, i + 1)
 
